@@ -178,6 +178,8 @@ func rootsFor(prop, tier string) []Root {
 		if thorough {
 			npk = []int{0, 1, 2, 3}
 		}
+		// the caller cancels while the connection is being established
+		rs = append(rs, Root{Prop: prop, Harness: "VH_C05_Stream", Params: []int{12, 1, 0, 0}, MaxDecs: 4000, MaxSteps: 30000000})
 		// the handler rejects the (empty) delivery of a rolled-back transaction
 		rs = append(rs, Root{Prop: prop, Harness: "VH_C05_Stream", Params: []int{4, 1, 0, 4}, MaxDecs: 4000, MaxSteps: 30000000})
 		rs = append(rs, Root{Prop: prop, Harness: "VH_C05_Stream", Params: []int{11, 1, 0, 4}, MaxDecs: 4000, MaxSteps: 30000000})
